@@ -50,6 +50,13 @@ func (c *compiler) compileChange(achange *parse.Change) *Change {
 	matcher := mc.compileFile(achange.Patch.Minus)
 	replacer := rc.compileFile(achange.Patch.Plus)
 
+	if len(rc.misplacedDots) > 0 {
+		for _, pos := range rc.misplacedDots {
+			c.errf(pos, `"..." in the "+" section can only stand for elements of a list or for the header of a for statement`)
+		}
+		return nil
+	}
+
 	ldots := mc.dots
 	rdots := rc.dots
 	if err := connectDots(c.fset, ldots, rdots, rc.dotAssoc); err != nil {
